@@ -217,11 +217,11 @@ def spec_of_axes(a, idx=0):
 # discovery / read / write of one database over one link
 # ---------------------------------------------------------------------------
 def link_name(link):
-    return 'eatt' if link[0] == 'eatt' else 'att'
+    return 'eatt' if link[0] in ('eatt', 'eatt_n') else 'att'
 
 
 def expected_mtu(link):
-    if link[0] == 'eatt':
+    if link[0] in ('eatt', 'eatt_n'):
         return min(link[1], 2048)
     if link[1] is None:
         return 23
@@ -246,6 +246,11 @@ def run_link(g, model, link, f: Findings, info: dict, do_writes=True, light=Fals
                     g.world.run(client.request_mtu(link[1]))
                 except Exception as e:  # noqa: BLE001
                     f.add('mtu_exchange', {'problem': 'exception', 'exc': type(e).__name__, 'bearer': bearer}, f'request_mtu({link[1]}) raised {e!r}', link=link)
+        elif link[0] == 'eatt_n':
+            # ('eatt_n', mtu, count, index): `count` enhanced bearers opened by ONE connect_eatt call; everything is then
+            # done on bearer number `index` of them
+            clients, srv_bearers = g.open_eatt_many(c_conn, s_conn, link[1], link[2])
+            client, srv_bearer = clients[link[3]], srv_bearers[link[3]]
         else:
             client, srv_bearer = g.open_eatt(c_conn, s_conn, link[1])
         m = expected_mtu(link)
@@ -593,7 +598,7 @@ def discovery_case(spec, links, seed=0, do_writes=True, light_after_first=False,
     info: dict = {}
     if defaults:
         do_writes = False
-    with GattWorld(2, 1, seed=seed, eatt=any(l[0] == 'eatt' for l in links), defaults=defaults) as g:
+    with GattWorld(2, 1, seed=seed, eatt=any(l[0] in ('eatt', 'eatt_n') for l in links), defaults=defaults) as g:
         model = g.set_database(spec)
         probs = [] if (defaults or model.autoreg()) else g.layout_problems()
         if probs:
@@ -657,7 +662,7 @@ def long_read_case(links, seed=0, only_length=None):
 
     f = Findings({'sub': 'long_read'})
     info: dict = {}
-    with GattWorld(2, 1, seed=seed, eatt=any(l[0] == 'eatt' for l in links)) as g:
+    with GattWorld(2, 1, seed=seed, eatt=any(l[0] in ('eatt', 'eatt_n') for l in links)) as g:
         model = g.set_database(LONG_SPEC)
         targets = [r for r in model.rows if r['kind'] in ('chr_value', 'descriptor')]
         for link in links:
@@ -1043,7 +1048,7 @@ def run(ctx: core.Context) -> int:
         return not only or name in only
 
     prefs = [23, 24, 50, 185, 517]
-    all_links = [('att', None, None)] + [('att', a, b) for a in prefs for b in prefs] + [('eatt', 64), ('eatt', 2048)]
+    all_links = [('att', None, None)] + [('att', a, b) for a in prefs for b in prefs] + [('eatt', 64), ('eatt', 2048)] + [('eatt_n', 64, 2, 0), ('eatt_n', 64, 2, 1), ('eatt_n', 185, 3, 0), ('eatt_n', 185, 3, 1), ('eatt_n', 185, 3, 2)]
     tasks = []  # (kind, payload) for one shared pool, long-running first
 
     # ---------------- termination, phase 1 (cheap): every script, non-termination suspected by repetition
@@ -1076,7 +1081,7 @@ def run(ctx: core.Context) -> int:
     if want('discovery'):
         shapes = enumerate_shapes(quick, 2)
         if quick:
-            full = [('att', None, None), ('att', 50, 517), ('eatt', 64), ('att', 23, 517), ('att', 517, 185), ('att', 517, 517)]
+            full = [('att', None, None), ('att', 50, 517), ('eatt', 64), ('att', 23, 517), ('att', 517, 185), ('att', 517, 517), ('eatt_n', 64, 2, 0), ('eatt_n', 100, 3, 1)]
             link_sets = [[full[0], full[2]], [full[1], full[5]], [full[3], full[4]]]
         else:
             full = all_links
